@@ -352,10 +352,51 @@ INVS = {
 WITNESS = {"C02": "NoDenseWindowEver", "C03": "NoDenseWindowEver", "C18": "NoAnonymousAbsorb"}
 
 
+def twin_history(r):
+    """Names that look alike once their parts are turned into strings - the integer N and the string 'N' at the
+    same position under one prefix - together with queries for their prefixes and extensions, directly and
+    through an anonymous window; every ordering of the two twins."""
+    ex = Executor()
+    steps = []
+
+    def do(c):
+        i, o = ex.apply(c)
+        steps.append({"i": i, "o": o})
+        return i
+    do({"call": "new", "aw": 6, "dw": 8, "al": 0})        # 1: root
+    do({"call": "new", "aw": 3, "dw": 8, "al": 0})        # 2: child, absorbed anonymously later
+    rid = [0]
+
+    def add(m, name):
+        rid[0] += 1
+        return do({"call": "add_resource", "m": m, "res": rid[0], "name": tag(name), "size": 1, "addr": -1,
+                   "alignment": -1, "bad": "none"})
+    pre = tuple(r.choice(["ch", "a", 7]) for _ in range(r.choice([0, 1, 1, 2])))
+    n = r.choice([0, 1, 2])
+    twins = [pre + (n, r.choice(["ctrl", "x"])), pre + (str(n), r.choice(["data", "y"]))]
+    r.shuffle(twins)
+    others = [pre + (r.choice(["b", "zz", 5]),), (r.choice(["q", 9]),)]
+    first = twins[:1] + others[:r.randint(0, 2)] + twins[1:]
+    via_child = r.random() < 0.5
+    for k, nm_ in enumerate(first):
+        add(2 if via_child and k == len(first) - 1 else 1, nm_)
+    if via_child:
+        do({"call": "add_window", "m": 1, "w": 2, "name": [], "addr": -1, "sparse": "none", "bad": "none"})
+    queries = [pre + (str(n),), pre + (n,), twins[0] + ("more",), twins[1] + (0,), twins[0], twins[1], pre + (n, "fresh"),
+               pre + (str(n), 0)] + ([pre] if pre else [])
+    r.shuffle(queries)
+    for q in queries:
+        add(1, q)
+    do({"call": "lookup"})
+    return steps
+
+
 def _hist_job(job):
     kind, arg = job
     if kind == "random":
         seed, length = arg
+        if seed % 8 == 1:
+            return {"cfg": {"seed": seed, "twins": 1}, "steps": twin_history(rng("mm-twin", seed))}
         if seed % 4 == 3:
             return {"cfg": {"seed": seed, "structured": 1}, "steps": structured_history(rng("mm-struct", seed))}
         return {"cfg": {"seed": seed}, "steps": random_history(rng("mm-hist", seed), length)}
